@@ -262,6 +262,12 @@ class Ctx:
         os.makedirs(EVIDENCE, exist_ok=True)
         with open(os.path.join(EVIDENCE, self.prop + '.json'), 'w') as f:
             json.dump(ev, f, indent=1)
+        if self.cov.get('conformance_divergences'):
+            # not a verdict: recorded executions the implementation-shaped model does not explain (model or projection
+            # is off, or the code changed shape); details in the evidence file
+            print('NOTE property=%s conformance drift: %d of %d sampled traces are not behaviours of the model'
+                  % (self.prop, self.cov['conformance_divergences'],
+                     (self.cov.get('conformance') or {}).get('traces_checked', 0)))
         for k in self.known.get('known', []):
             if k['property'] == self.prop and self.known_hits.get(k['id']):
                 print('KNOWN-FINDING: property=%s %s (%d executions this run)'
